@@ -235,5 +235,43 @@ func (c *Cluster) Stop() {
 	for _, nd := range c.Nodes {
 		c.Kill(nd.ID)
 	}
+	if keep := os.Getenv("VERIF_KEEP_CLUSTER"); keep != "" { // debugging aid: keep the node directories
+		_ = os.RemoveAll(keep)
+		if os.Rename(c.Dir, keep) == nil {
+			return
+		}
+	}
 	_ = os.RemoveAll(c.Dir)
+}
+
+// Leader returns the node that, by its own log, is the current Raft leader (0 if none can be named):
+// the alive node whose last role line is "became leader at term N", with the highest N.
+func (c *Cluster) Leader() int {
+	best, bestTerm := 0, -1
+	for _, nd := range c.Nodes {
+		if nd.srv == nil || !nd.srv.Alive() {
+			continue
+		}
+		b, err := os.ReadFile(nd.srv.logPath)
+		if err != nil {
+			continue
+		}
+		s := string(b)
+		i := strings.LastIndex(s, " became leader at term ")
+		if i < 0 {
+			continue
+		}
+		if j := strings.LastIndex(s, " became follower at term "); j > i {
+			continue
+		}
+		if j := strings.LastIndex(s, " became candidate at term "); j > i {
+			continue
+		}
+		var term int
+		fmt.Sscanf(s[i+len(" became leader at term "):], "%d", &term)
+		if term > bestTerm {
+			best, bestTerm = nd.ID, term
+		}
+	}
+	return best
 }
